@@ -50,6 +50,14 @@ fn cfgs(attrs: &[Attribute]) -> Vec<Value> {
     out
 }
 
+fn allows_dead(attrs: &[Attribute]) -> bool {
+    attrs.iter().any(|a| {
+        (a.path().is_ident("allow") || a.path().is_ident("expect"))
+            && a.meta.to_token_stream().to_string().contains("dead_code")
+            || (a.path().is_ident("allow") && a.meta.to_token_stream().to_string().contains("unused"))
+    })
+}
+
 fn line<T: spanned::Spanned>(t: &T) -> usize {
     t.span().start().line
 }
@@ -66,7 +74,10 @@ struct Scan {
     macro_idents: Vec<Value>,
     item_macros: Vec<Value>,
     bindings: Vec<Value>,
-    mods: Vec<(String, Vec<Value>, bool, usize)>,
+    mods: Vec<(String, Vec<Value>, bool, usize, bool)>,
+    assoc_fns: Vec<Value>,
+    method_calls: Vec<Value>,
+    dead_stack: Vec<bool>,
 }
 
 impl Scan {
@@ -172,7 +183,7 @@ impl<'ast> Visit<'ast> for Scan {
             _ => ("other", String::new()),
         };
         if !matches!(i, Item::Use(_) | Item::Impl(_)) {
-            self.items.push(json!({"kind": kind, "name": name, "cfg": full, "line": line(i), "fn": self.fn_stack.last()}));
+            self.items.push(json!({"kind": kind, "name": name, "cfg": full, "line": line(i), "fn": self.fn_stack.last(), "allow_dead": allows_dead(attrs) || self.dead_stack.iter().any(|x| *x)}));
         }
         self.with(attrs, |s| match i {
             Item::Use(u) => {
@@ -184,10 +195,10 @@ impl<'ast> Visit<'ast> for Scan {
             }
             Item::Mod(m) => {
                 if m.content.is_none() {
-                    s.mods.push((m.ident.to_string(), s.stack.clone(), false, line(m)));
+                    s.mods.push((m.ident.to_string(), s.stack.clone(), false, line(m), allows_dead(&m.attrs)));
                 } else {
                     // inline modules are rare in this crate; record and descend (names are not re-scoped)
-                    s.mods.push((m.ident.to_string(), s.stack.clone(), true, line(m)));
+                    s.mods.push((m.ident.to_string(), s.stack.clone(), true, line(m), allows_dead(&m.attrs)));
                     visit::visit_item(s, i);
                 }
             }
@@ -201,6 +212,18 @@ impl<'ast> Visit<'ast> for Scan {
                     let mut c = s.stack.clone();
                     c.extend(cfgs(&v.attrs));
                     s.variants.push(json!({"enum": e.ident.to_string(), "variant": v.ident.to_string(), "cfg": c, "line": line(v)}));
+                }
+                visit::visit_item(s, i);
+            }
+            Item::Impl(im) => {
+                let dead = allows_dead(&im.attrs) || s.dead_stack.iter().any(|x| *x);
+                for it in im.items.iter() {
+                    if let ImplItem::Fn(f) = it {
+                        let mut c = s.stack.clone();
+                        c.extend(cfgs(&f.attrs));
+                        s.assoc_fns.push(json!({"name": f.sig.ident.to_string(), "self_ty": im.self_ty.to_token_stream().to_string(), "trait": im.trait_.is_some(),
+                            "cfg": c, "allow_dead": dead || allows_dead(&f.attrs), "line": line(f)}));
+                    }
                 }
                 visit::visit_item(s, i);
             }
@@ -282,6 +305,11 @@ impl<'ast> Visit<'ast> for Scan {
         });
     }
 
+    fn visit_expr_method_call(&mut self, m: &'ast ExprMethodCall) {
+        self.method_calls.push(json!({"name": m.method.to_string(), "cfg": self.cur(), "line": line(m), "fn": self.fn_stack.last()}));
+        visit::visit_expr_method_call(self, m);
+    }
+
     fn visit_arm(&mut self, a: &'ast Arm) {
         let attrs = a.attrs.clone();
         self.with(&attrs, |s| {
@@ -324,20 +352,21 @@ fn scan_file(path: &Path, module: Vec<String>, out: &mut Vec<Value>, root: &Path
             return;
         }
     };
-    let mut s = Scan { stack: vec![], fn_stack: vec![], items: vec![], uses: vec![], paths: vec![], lets: vec![], variants: vec![], arms: vec![], macro_idents: vec![], item_macros: vec![], bindings: vec![], mods: vec![] };
+    let mut s = Scan { stack: vec![], fn_stack: vec![], items: vec![], uses: vec![], paths: vec![], lets: vec![], variants: vec![], arms: vec![], macro_idents: vec![], item_macros: vec![], bindings: vec![], mods: vec![], assoc_fns: vec![], method_calls: vec![], dead_stack: vec![allows_dead(&file.attrs)] };
     s.stack.extend(cfgs(&file.attrs));
     s.visit_file(&file);
     let rel = path.strip_prefix(root).unwrap_or(path).to_string_lossy().to_string();
     out.push(json!({"path": rel, "module": module, "items": s.items, "uses": s.uses, "paths": s.paths, "lets": s.lets, "variants": s.variants,
         "arms": s.arms, "macro_idents": s.macro_idents, "item_macros": s.item_macros, "bindings": s.bindings,
-        "mods": s.mods.iter().map(|(n, c, inl, l)| json!({"name": n, "cfg": c, "inline": inl, "line": l})).collect::<Vec<_>>()}));
+        "assoc_fns": s.assoc_fns, "method_calls": s.method_calls, "file_allow_dead": allows_dead(&file.attrs),
+        "mods": s.mods.iter().map(|(n, c, inl, l, d)| json!({"name": n, "cfg": c, "inline": inl, "line": l, "allow_dead": d})).collect::<Vec<_>>()}));
     // follow out-of-line modules
     let dir: PathBuf = if path.file_name().map(|f| f == "lib.rs" || f == "mod.rs").unwrap_or(false) {
         path.parent().unwrap().to_path_buf()
     } else {
         path.with_extension("")
     };
-    for (name, _c, inline, _l) in s.mods.iter() {
+    for (name, _c, inline, _l, _d) in s.mods.iter() {
         if *inline {
             continue;
         }
